@@ -263,6 +263,28 @@ func genC08(env *core.Env, emit func(core.Case)) {
 			run("echFieldExtremes", false, rec, oneChunk(rec), backendFlight())
 		}
 	}
+	// an authentic payload under an outer hello whose server_name is missing, empty, or spelled otherwise
+	for rep := 0; rep < env.Pick(3, 20); rep++ {
+		for variant := 0; variant < 5; variant++ {
+			// (sealed to the campaign's key, whose public name is public.example)
+			o := gen.PlanOpts{NOuterOpaque: 2, NInnerOpaque: 1, MaxExtLen: 20, Padding: 4, SIDLen: 32, RefMask: 1, MarkerPos: 1, InnerName: "inner.example", ALPN: []string{"h2"}, PublicName: "public.example"}
+			plan := gen.Plan(r, o)
+			ob := *plan.OuterBase
+			ob.Exts = slices.Clone(ob.Exts)
+			switch variant {
+			case 0:
+				ob.Exts = slices.DeleteFunc(ob.Exts, func(e gen.Ext) bool { return e.Type == 0 })
+			default:
+				for i, e := range ob.Exts {
+					if e.Type == 0 {
+						ob.Exts[i] = gen.SNI([]string{"", "public.example.", "PUBLIC.EXAMPLE", "."}[variant-1])
+					}
+				}
+			}
+			sealed := gen.Seal(&ob, r.IntN(len(ob.Exts)+1), key, gen.AllSuites[r.IntN(3)], plan.Enc.Body(), nil, 0x0301)
+			run("outerSNIShapes", true, sealed.Rec, oneChunk(sealed.Rec), backendFlight())
+		}
+	}
 	// retried hellos of every kind (well-formed and ill-formed), drained with several read sizes
 	for rep := 0; rep < env.Pick(2, 12); rep++ {
 		for _, rc := range retryCases(r) {
